@@ -370,13 +370,16 @@ def _constraint_thunks(entry, field, corruption, fact):
 def _jet_lift_thunks(entry, field, corruption, fact):
     w = world()
     ssm = SSM[fact]()
-    # three Taylor coefficients, first-order ODE: 0 <= lift_by <= 2
+    # three Taylor coefficients (indices 0..2), first-order ODE: the lifted constraint has outputs u', ..., u^(1+lift_by),
+    # which the state carries only for 0 <= lift_by <= 1; lift_by = 2 is the first inadmissible order (the lifted
+    # FUNCTION still has enough inputs there - only the output coefficient is missing - which is the boundary where
+    # array indexing clamps silently, see known_findings.json "fixed")
     values = {
         None: [("lift_by=1", 1)],
         "wrong_dtype": [("lift_by=1.0", 1.0), ("lift_by=array(1)", jnp.asarray(1))],
         "wrong_type": [("lift_by='1'", "1"), ("lift_by=None", None)],
         "too_small": [("lift_by=-1", -1)],
-        "too_large": [("lift_by=3", NUM + 1), ("lift_by=7", 7)],
+        "too_large": [("lift_by=2", NUM), ("lift_by=3", NUM + 1), ("lift_by=7", 7)],
     }[corruption]
 
     def make(v, residual):
